@@ -151,58 +151,68 @@ def run(ctx, res):
                                  case=dict(threads=8, per_thread=2000), detail=None))
     # another caller scheduled exactly when the generator releases its lock (deterministic stand-in for a
     # pre-emption between "release" and "return"): the ids of the two callers must still differ
-    class ReleaseHook:
-        def __init__(self, gen, inner):
-            self.gen, self.inner, self.depth, self.busy, self.other = gen, inner, 0, False, []
-
-        def acquire(self, *a, **k):
-            r = self.inner.acquire(*a, **k)
-            self.depth += 1
-            return r
-
-        def release(self):
-            self.depth -= 1
-            self.inner.release()
-            if self.depth == 0 and not self.busy:
-                self.busy = True
-                try:
-                    self.other.append(self.gen.generate())     # "thread B" runs here
-                finally:
-                    self.busy = False
-
-        def __enter__(self):
-            self.acquire()
-            return self
-
-        def __exit__(self, *a):
-            self.release()
     n_hook = 0
     for seq in list(sequences(5)):
-        it = iter([c for c in seq for _ in (0, 1)])
-        old = m.time
-        m.time = lambda: next(it)
-        try:
-            g2 = m.BoboGenEventIDUnique("h")
-            if not hasattr(g2, "_lock"):
-                break
-            hook = ReleaseHook(g2, g2._lock)
-            g2._lock = hook
-            mine = [g2.generate() for _ in seq]
-        except StopIteration:
-            continue
-        finally:
-            m.time = old
+        r = hook_case(seq)
+        if r is None:
+            break
         n_hook += 1
-        allids = mine + hook.other
+        mine, other = r
+        allids = mine + other
         if len(set(allids)) != len(allids):
             res.failures.append(dict(signature="duplicate-id-caller-at-lock-release",
                                      what="a second caller scheduled at the moment the generator releases its lock got the same identifier",
                                      case=dict(clock=seq, interleaving="B.generate() at every lock release of A"),
-                                     detail=dict(a=mine, b=hook.other)))
+                                     detail=dict(a=mine, b=other)))
             break
     res.extra["lock_release_interleavings"] = n_hook
     # shrink failures: keep the shortest
     res.failures.sort(key=lambda f: len(f["case"].get("clock", [])))
+
+
+class ReleaseHook:
+    def __init__(self, gen, inner):
+        self.gen, self.inner, self.depth, self.busy, self.other = gen, inner, 0, False, []
+
+    def acquire(self, *a, **k):
+        r = self.inner.acquire(*a, **k)
+        self.depth += 1
+        return r
+
+    def release(self):
+        self.depth -= 1
+        self.inner.release()
+        if self.depth == 0 and not self.busy:
+            self.busy = True
+            try:
+                self.other.append(self.gen.generate())     # "thread B" runs here
+            finally:
+                self.busy = False
+
+    def __enter__(self):
+        self.acquire()
+        return self
+
+    def __exit__(self, *a):
+        self.release()
+
+
+def hook_case(seq):
+    """ids of caller A and of a caller B scheduled at every lock release of A; None if the generator has no _lock"""
+    import bobocep.cep.gen.event_id as m
+    it = iter([c for c in seq for _ in (0, 1)])
+    old = m.time
+    m.time = lambda: next(it)
+    try:
+        g2 = m.BoboGenEventIDUnique("h")
+        if not hasattr(g2, "_lock"):
+            return None
+        hook = ReleaseHook(g2, g2._lock)
+        g2._lock = hook
+        mine = [g2.generate() for _ in seq]
+    finally:
+        m.time = old
+    return mine, hook.other
 
 
 def replay(obj):
@@ -210,6 +220,13 @@ def replay(obj):
     if "clock" not in case:
         print(obj)
         return 0
+    if "interleaving" in case:
+        mine, other = hook_case(case["clock"])
+        print("caller A:", mine)
+        print("caller B (scheduled at each lock release of A):", other)
+        dup = len(set(mine + other)) != len(mine + other)
+        print("duplicate identifiers" if dup else "identifiers pairwise distinct")
+        return 1 if dup else 0
     urn, clock = case.get("urn"), case["clock"]
     ids = impl_ids(urn, clock)
     print("implementation:", ids)
